@@ -43,7 +43,31 @@ def run(cx):
     if u:
         jr = cx.calls(u, r'persistence::Journal::insert_records$')
         muts = cx.calls(u, MUT)
-        cx.check('C14.P1', len(jr) == 1, u.path, 'calls', 'single-write-ahead-call', str(len(jr)))
+        # the write-ahead may be delegated to ONE private async helper that update_records awaits with (self, serial, records) and
+        # `?`s: the helper is then held to the same clauses (journals exactly its arguments, Ok only when written or no journal
+        # attached, ServFail otherwise) and every mutation is behind its Ok
+        AW = r'await\(SqliteZoneHandler::(\w+)\(\^arg1,await\(InMemoryZoneHandler::serial\(\^arg1\.in_memory\)\)@Ready\.0,\^arg2\)\)'
+        deleg = sorted({m_.group(1) for bb in range(len(u.blocks)) for ps in u.edge_props(bb).values() for p_ in ps
+                        for m_ in [re.match(rf'^ok\({AW}@Ready\.0\)$', shorten(p_))] if m_}) if not jr else []
+        h = prog.fns.get(S + deleg[0] + '::{closure#0}') if len(deleg) == 1 else None
+        hj = cx.calls(h, r'persistence::Journal::insert_records$') if h is not None else []
+        if h is not None and len(hj) == 1:
+            cx.fn('C14.P1', h.path)
+            cx.check('C14.P1', hj[0].term == 'Journal::insert_records(await(Mutex::lock(^arg1.journal))@Ready.0@Some.0,^arg2,^arg3)', h.path, hj[0].key(),
+                     'journals-exactly-the-update-records', hj[0].term[:200], hj[0].loc)
+            HOK = r'^ok\(Journal::insert_records\(.*\)\)$|^!ok\(await\(Mutex::lock\(\^arg1\.journal\)\)@Ready\.0\)$'
+            cx.guard('C14.P1', cx.returns(h, r'^Result::Ok\('), {'journal-written-or-no-journal': HOK}, expect=1, fn=h)
+            herr = [t_ for bb in range(len(h.blocks)) for t_, ps in h.edge_props(bb).items() if any(re.search(r'^!ok\(Journal::insert_records\(', shorten(p_)) for p_ in ps)]
+            hreach = cx.reachable_from(h, herr) if herr else set()
+            hret = [r_ for r_ in cx.returns(h, r'^Result::') if r_.bb in hreach]
+            cx.check('C14.P1', len(herr) == 1 and len(hret) == 1 and hret[0].term == 'Result::Err(ResponseCode::ServFail)', h.path, 'edge', 'journal-error-returns-ServFail', '; '.join(r_.term for r_ in hret))
+            cx.guard('C14.P1', muts, {'journal-written-or-no-journal': rf'^ok\({AW}@Ready\.0\)$'}, fn=u)
+            uerr = [t_ for bb in range(len(u.blocks)) for t_, ps in u.edge_props(bb).items() if any(re.search(rf'^!ok\({AW}@Ready\.0\)$', shorten(p_)) for p_ in ps)]
+            ureach = cx.reachable_from(u, uerr) if uerr else set()
+            cx.check('C14.P1', len(uerr) == 1 and not [m for m in muts if m.bb in ureach] and not [r_ for r_ in cx.returns(u, r'^Result::Ok\(') if r_.bb in ureach],
+                     u.path, 'edge', 'journal-error-mutates-nothing', '')
+        else:
+            cx.check('C14.P1', len(jr) == 1, u.path, 'calls', 'single-write-ahead-call', str(len(jr)))
         cx.floor('C14.P1', len(muts), 5, 'zone mutation calls in update_records')
         if jr:
             JOK = r'^ok\(Journal::insert_records\(.*\)\)$|^!ok\(await\(Mutex::lock\(\^arg1\.journal\)\)@Ready\.0\)$'
@@ -225,6 +249,16 @@ def run(cx):
     # ---------------------------------------------------------------- P4 schema steps are transactions (F24a)
     # "recovery never fails on a journal the server itself wrote": a schema step (DDL) and the version row that records it must
     # become visible together, or a stop between them leaves a journal that the next start cannot migrate
+    # ---------------------------------------------------------------- P5 every open of a journal file resumes the schema migration
+    # schema_up is a resumable loop (one transaction per step, P4): a first start that stopped between two steps leaves a journal
+    # the server itself wrote at an intermediate version.  Journal::from_file - the only constructor the zone handler uses for a
+    # file - hands out a journal only after schema_up succeeded, on every open, not only for a file without a schema
+    ff = cx.fn('C14.P5', J + 'from_file')
+    if ff:
+        cx.guard('C14.P5', cx.returns(ff, r'^Result::Ok\('), {'schema-brought-up-on-every-open': r'^ok\(Journal::schema_up\('}, expect=1, fn=ff)
+        opener = sorted({p_ for p_, g_ in prog.fns.items() if '::tests::' not in p_ and g_.crate == 'hickory_server' and p_ != J + 'from_file'
+                         for bi_, c_, t_ in prog.calls_of(g_) if any(n_.endswith('persistence::Journal::new') for n_ in g_.callee_names(c_))})
+        cx.check('C14.P5', not opener, J + 'new', 'callers', 'journal-built-only-through-from_file', ', '.join(opener))
     su = cx.fn('C14.P4', J + 'schema_up')
     if su:
         eb = cx.calls(su, r'Connection::execute_batch$')
